@@ -19,7 +19,8 @@ EXTENDS Debounce, TLC, Json
 CONSTANTS Configs,     \* e.g. {1, 2, 3}
           MaxSubmits,  \* bound on begun submissions (0 = unbounded)
           MaxFails,    \* bound on failing reload attempts (0 = unbounded)
-          Variant      \* "frr" | "k8s"
+          Variant,     \* "frr" | "k8s"
+          Rejects      \* BOOLEAN: submitter "u" may also make submissions that are rejected (REJ)
 
 Submitters == {"u", "v"}
 
@@ -55,7 +56,7 @@ Begin(p, x) ==
 Effect(p) ==
   /\ pend[p] # NONE
   /\ EffectAllowed(s, pend[p])
-  /\ s' = (IF pend[p] = OLD THEN NoConfEff(s) ELSE SubmitEff(s, pend[p]))
+  /\ s' = AnyEff(s, pend[p])
   /\ pend' = [pend EXCEPT ![p] = NONE]
   /\ act' = Act("Eff", p, pend[p], TRUE, FALSE)
   /\ UNCHANGED <<bad, nsub, nfail>>
@@ -86,6 +87,7 @@ Done(ok) ==
   /\ UNCHANGED <<pend, bad, nsub>>
 
 Next == \/ \E c \in Configs : Begin("u", c)
+        \/ Rejects /\ Begin("u", REJ)
         \/ Begin("v", OLD)
         \/ \E p \in Submitters : Effect(p)
         \/ Tick
@@ -106,7 +108,7 @@ FairSpec == /\ Spec
 
 TypeOK == /\ s.config \in Configs \cup {NONE}
           /\ s.lastApplied \in Configs \cup {NONE}
-          /\ \A p \in Submitters : pend[p] \in Configs \cup {NONE, OLD}
+          /\ \A p \in Submitters : pend[p] \in Configs \cup {NONE, OLD, REJ}
 
 (* NeverOlder, Coalesce, IdenticalNoReload held at every reload so far      *)
 InvReloads == bad = {}
